@@ -75,11 +75,20 @@ var defaultOptions = &Options{
 	formatOptions:      map[string]interface{}{},
 }
 
+// newDefaultOptions returns a fresh copy of the default options. Every reader
+// gets its own, the functional options write through the instance's pointer.
+func newDefaultOptions() *Options {
+	return &Options{
+		UnserializeOptions: &native.UnserializeOptions{},
+		formatOptions:      map[string]interface{}{},
+	}
+}
+
 func New(opts ...ReaderOption) *Reader {
 	r := &Reader{
 		sniffer: &formats.Sniffer{},
 		Storage: storage.NewFileSystem(),
-		Options: defaultOptions,
+		Options: newDefaultOptions(),
 	}
 
 	for _, opt := range opts {
@@ -157,7 +166,7 @@ func (r *Reader) detectFormat(rs io.ReadSeeker) (formats.Format, error) {
 // Retrieve reads a document from the configured storage backend using the
 // default options.
 func (r *Reader) Retrieve(id string) (*sbom.Document, error) {
-	return r.RetrieveWithOptions(id, defaultOptions)
+	return r.RetrieveWithOptions(id, r.Options)
 }
 
 // RetrieveWithOptions retrieves a document from the configured storage backend
